@@ -181,8 +181,9 @@ fn long_case(which: u8, l: usize, dev: usize) -> Out {
     let names = ["with_rate", "with_rate", "with_rate", "with_one_over_length", "bitstring_random", "bitstring_random_with_probability", "bool_generator_into_collection", "bool_generator_to_collection", "uniform_xo", "uniform_xo", "uniform_xo", "uniform_xo"];
     let name = names[which as usize];
     let label = format!("{name} (variant {which}) on a genome of length {l}");
-    let alpha = if which == 3 { Alphabet::Ext(l as u32) } else { Alphabet::Ext(2) };
+    let alpha = if which == 3 { Alphabet::Ext(l as u32) } else { Alphabet::Bits };
     let mut seen = vec![[false; 2]; l];
+    let mut differ = vec![false; l * l];
     let mut bad: Option<String> = None;
     let st = explore_bounded(
         |env| -> Result<Vec<bool>, String> {
@@ -210,6 +211,15 @@ fn long_case(which: u8, l: usize, dev: usize) -> Out {
                 for (i, b) in bits.iter().enumerate().take(l) {
                     seen[i][*b as usize] = true;
                 }
+                if bits.len() == l {
+                    for i in 0..l {
+                        for j in i + 1..l {
+                            if bits[i] != bits[j] {
+                                differ[i * l + j] = true;
+                            }
+                        }
+                    }
+                }
             }
             Err(e) => bad = Some(e),
         },
@@ -228,6 +238,17 @@ fn long_case(which: u8, l: usize, dev: usize) -> Out {
             st.leaves,
             st.choice_points,
             Some((format!("{name}/long-support"), format!("{label}: over every stream with at most {dev} non-default words, {} (position, outcome) pairs never occur, e.g. {:?} -- these genes are not decided by the random stream with the configured probability", stuck.len(), &stuck[..stuck.len().min(4)]))),
+            1,
+        );
+    }
+    // independence: two genes that are decided independently with a probability strictly between 0 and 1
+    // can come out differently (for 1/l on a long genome: one flipped, the other not)
+    let tied: Vec<(usize, usize)> = (0..l).flat_map(|i| (i + 1..l).map(move |j| (i, j))).filter(|(i, j)| !differ[i * l + j]).collect();
+    if !tied.is_empty() {
+        return (
+            st.leaves,
+            st.choice_points,
+            Some((format!("{name}/long-independence"), format!("{label}: {} pairs of positions always have the same outcome, e.g. {:?} -- these genes are not decided independently", tied.len(), &tied[..tied.len().min(4)]))),
             1,
         );
     }
@@ -451,7 +472,7 @@ pub fn run(run: &mut Run) {
     run.states = cs.len() as u64;
     run.traces_validated = run.evaluations;
     run.distinct_nontrivial = nontrivial;
-    run.rule = "lattice rates {0,1/4,1/3,1/2,3/4,1}: WithRate / WithOneOverLength flip-mask law = product law; Umad output-genome law = per-gene law (keep 1-d, insert a(1-d), uniform generator) incl. expected size l(1-d)(1+a) and the empty-parent rate; Bitstring::random / random_with_probability / BoolGenerator product laws; GeneGenerator close probability (explicit and 1/(n+1)) and uniform instruction choice; all grid word sequences, laws compared as exact rationals. (UniformXo's exact 1/2 law on short genomes is decided in C10.) Long genomes (63..129, thorough up to 257): flips, bit generators and UniformXo under every stream with at most 1 (2) non-default words over the grid plus the extreme words: every gene must be seen with both outcomes. non-trivial = scenarios whose law has more than one outcome".into();
+    run.rule = "lattice rates {0,1/4,1/3,1/2,3/4,1}: WithRate / WithOneOverLength flip-mask law = product law; Umad output-genome law = per-gene law (keep 1-d, insert a(1-d), uniform generator) incl. expected size l(1-d)(1+a) and the empty-parent rate; Bitstring::random / random_with_probability / BoolGenerator product laws; GeneGenerator close probability (explicit and 1/(n+1)) and uniform instruction choice; all grid word sequences, laws compared as exact rationals. (UniformXo's exact 1/2 law on short genomes is decided in C10.) Long genomes (63..129, thorough up to 257): flips, bit generators and UniformXo under every stream with at most 1 (2) non-default words over the grid plus the extreme words: every gene must be seen with both outcomes and every pair of genes with different outcomes (alphabet with alternating bit-block words, so that implementations serving several genes from one word are driven through every pair as well). non-trivial = scenarios whose law has more than one outcome".into();
     run.bound("umad_parent_lengths", json!("0, 1, 2 (m=4 lattice); thirds on length 1"));
     run.bound("flip_lengths", json!(if run.quick() { "0..2 (1/l: 1..3)" } else { "0..3 (1/l: 1..4)" }));
     run.bound("instruction_set_sizes", json!("1..5"));
